@@ -80,13 +80,13 @@ def meta_from_lines(lines):
             cfg = (t[1], t[2])
         elif t[0] == "symadds":
             ops.append(("add", unhexs(t[3]), int(t[4]), int(t[5]), int(t[6]), int(t[7]), int(t[8])))
-        elif t[0] == "symget":
+        elif t[0] in ("symget", "symgetk"):
             ops.append(("get", int(t[2])))
-        elif t[0] == "symnum":
+        elif t[0] in ("symnum", "symnumk"):
             ops.append(("num",))
-        elif t[0] == "symname":
+        elif t[0] in ("symname", "symnamek"):
             ops.append(("name", unhexs(t[2])))
-        elif t[0] == "symval":
+        elif t[0] in ("symval", "symvalk"):
             ops.append(("val", int(t[2])))
         elif t[0] == "getdata" and t[1] == "3":
             ops.append(("data",))
@@ -200,7 +200,7 @@ def nontrivial(case):
     return sum(1 for o in ops if o[0] == "add") >= 4 and any(o[0] == "hash" for o in ops)
 
 
-def table_case(cid, rng, cfg, k, hashkind, saved_first=False):
+def table_case(cid, rng, cfg, k, hashkind, saved_first=False, view=False):
     cls, enc = cfg
     w = 32 if cls == "32" else 64
     names = set()
@@ -215,6 +215,10 @@ def table_case(cid, rng, cfg, k, hashkind, saved_first=False):
         names.sort(key=lambda n: gnu_hash_abi(n) % nb)
     lines = prefix(cfg)
     syms = []
+    if view:
+        # a long-lived read accessor on the symbol table, created and used before anything is added; the symbols are
+        # then added through other (short-lived) accessors and it is asked again
+        lines += ["symnew 0 3", "symnumk 0", "symgetk 0 0"]
     for nm in names:
         bind = rng.choice([0, 1, 2, 10, 13, 15])
         typ = rng.choice([0, 1, 2, 3, 4, 5, 6, 10, 13, 15])
@@ -224,6 +228,8 @@ def table_case(cid, rng, cfg, k, hashkind, saved_first=False):
         size = rval(rng, 64)
         syms.append((nm, value, size, (bind << 4) + typ, other, shndx))
         lines.append("symadds 3 2 %s %d %d %d %d %d" % (hx(nm), value, size, (bind << 4) + typ, other, shndx))
+        if view and rng.random() < 0.4:
+            lines += ["symnumk 0", "symgetk 0 %d" % len(syms), "symnamek 0 " + hx(nm), "symvalk 0 %d" % (value % 2**w)]
     lines.append("symnum 3")
     for ix in list(range(k + 1)) + [k + 1, k + 2, 2**32 - 1, 2**64 - 1]:
         lines.append("symget 3 %d" % ix)
@@ -238,7 +244,9 @@ def table_case(cid, rng, cfg, k, hashkind, saved_first=False):
         # the writer object is saved (its sections get file offsets) and queried afterwards
         lines += ["save", "symnum 3", "symget 3 %d" % k]
     for nm in names:
-        lines.append("symname 3 " + hx(nm))
+        lines.append(("symnamek 0 " if view and rng.random() < 0.5 else "symname 3 ") + hx(nm))
+    if view:
+        lines += ["symnumk 0", "symgetk 0 %d" % k, "symgetk 0 %d" % (k + 1)]
     for _ in range(4):
         lines.append("symname 3 " + hx(rname(rng, 1, 11) + b"~"))
     for s in syms[:10]:
@@ -257,7 +265,7 @@ def generate(rng, tier):
     for i in range(n):
         cfg = CFGS[i % 4]
         k = rng.choice([0, 1, 2, 5, 17, 60]) if rng.random() < 0.4 else rng.randint(0, 60)
-        cases.append(table_case("t%d" % i, rng, cfg, k, kinds[(i // 4) % 4], saved_first=(i % 16 >= 12)))
+        cases.append(table_case("t%d" % i, rng, cfg, k, kinds[(i // 4) % 4], saved_first=(i % 16 >= 12), view=(i % 5 == 3)))
     # hash functions
     alpha = b"ab_Z9\xe9"
     strs = [bytes(s) for ln in range(0, 4) for s in itertools.product(alpha, repeat=ln)]
